@@ -1,6 +1,7 @@
 import BU.Properties.C11
 import BU.Properties.C11_Detect
 import BU.Properties.C11_Gen
+import BU.Properties.C11_GenTop
 #print axioms C11.consts_tie
 #print axioms C11.segwit_prefixes
 #print axioms C11.hrp_cases
@@ -24,3 +25,21 @@ import BU.Properties.C11_Gen
 #print axioms C11Gen.gen_verify_checksum
 #print axioms C11Gen.gen_create_checksum
 #print axioms C11Gen.gen_convertbits
+#print axioms C11GenTop.lowerA_eq
+#print axioms C11GenTop.upperA_eq
+#print axioms C11GenTop.any_eq
+#print axioms C11GenTop.printable_ascii
+#print axioms C11GenTop.sliceL_drop
+#print axioms C11GenTop.sliceL_take
+#print axioms C11GenTop.sliceL_drop_last6
+#print axioms C11GenTop.gen_bech32_decode
+#print axioms C11GenTop.decode_len
+#print axioms C11GenTop.ok_bind_p
+#print axioms C11GenTop.gen_segwit_decode
+#print axioms C11GenTop.checksum_lt
+#print axioms C11GenTop.listGet_nat
+#print axioms C11GenTop.charset_get
+#print axioms C11GenTop.gen_bech32_encode
+#print axioms C11GenTop.gen_segwit_encode
+#print axioms C11GenTop.gen_decode_encode
+#print axioms C11GenTop.gen_decode_sound
